@@ -8,6 +8,7 @@ import BppModel.Text.Vars
 import BppModel.Text.TokenizerU
 import BppModel.Text.TokRT
 import BppModel.Text.TableRT
+import BppModel.Text.NumFmt
 /-
 Driver for C17 (round trips and exact grammars).  Stateless: every op carries its inputs.
 Strings are hex-escaped; the implementation's doubles arrive as 16 hex digits, the model's
@@ -107,24 +108,42 @@ def step (s : Unit) (op : List String) (impl : Option (List String)) : Unit × S
         | some _ => "FAIL:parse"
       (s, out, verdict)
     | none => (s, "bad-op", "-")
-  | ["dbl.rt", hd, _prec] =>
-    -- not modelled (ostream formatting): the expected answer is the input itself; the verdict reads
-    -- the text the implementation produced: it must be in the grammar, denote a value whose
-    -- nearest double is the input, and parse back to the input
-    let verdict := match impl with
-      | none => "-"
-      | some [back, htxt] =>
-        match unhex htxt with
-        | none => "FAIL:parse"
-        | some txt =>
-          match Number.parseDecimal '.' 'e' txt with
-          | none => "FAIL:double_format_in_grammar"
-          | some p =>
-            if back != hd then "FAIL:double_roundtrip"
-            else if !nearestDouble hd p.value then "FAIL:double_format_value"
-            else "ok"
-      | some _ => "FAIL:double_roundtrip"
-    (s, hd, verdict)
+  | ["dbl.rt", hd, prec] =>
+    -- the model formats the exact value of the double (`NumFmt.toStringPrec`, the `%.{P}g` conversion)
+    -- and the text must be the implementation's; the verdict reads the text the implementation
+    -- produced: it must be in the grammar, denote the rounding of the input to `prec` significant
+    -- digits (`NumFmt.roundedValue`: the input itself when it has no more digits), whose nearest double
+    -- is the input when `prec` is 17, and parse back to it
+    let sa : Option (Bool × Rat) :=
+      match if hd.length == 16 then Hex.toNat? hd else none with
+      | none => none
+      | some bits =>
+        let e := (bits >>> 52) % 2048
+        let m := bits % (2 ^ 52)
+        if e == 2047 then none
+        else
+          let (mant, ex) : Nat × Int := if e == 0 then (m, -1074) else (m + 2 ^ 52, (e : Int) - 1075)
+          some (bits >>> 63 == 1, ((mant : Nat) : Rat) * pow2 ex)
+    match sa, nat? prec with
+    | some (neg, a), some pr =>
+      let txt := NumFmt.toStringPrec pr neg a
+      let verdict := match impl with
+        | none => "-"
+        | some [back, htxt] =>
+          match unhex htxt with
+          | none => "FAIL:parse"
+          | some t =>
+            match Number.parseDecimal '.' 'e' t with
+            | none => "FAIL:double_format_in_grammar"
+            | some p =>
+              if p.value != NumFmt.roundedValue pr neg a then "FAIL:toString_value"
+              else if NumFmt.fitsPrec pr a && p.value != (if neg then -a else a) then "FAIL:toString_roundtrip_exact"
+              else if pr ≥ 17 && back != hd then "FAIL:double_roundtrip"
+              else if pr ≥ 17 && !nearestDouble hd p.value then "FAIL:double_format_value"
+              else "ok"
+        | some _ => "FAIL:double_roundtrip"
+      (s, (if pr ≥ 17 then hd else "*") ++ " " ++ hex txt, verdict)
+    | _, _ => (s, "bad-op", "-")
   | ["glob", hp, hn] =>
     match unhex hp, unhex hn with
     | some pat, some name =>
